@@ -8,6 +8,7 @@ From Verif Require Import Base.Sx Base.GoSem Model.Decoders.Common Model.Decoder
   Model.Decoders.Csv Model.Decoders.JsonCut
   Proofs.Decoders.Cri Proofs.Decoders.Postgres Proofs.Decoders.Nginx Proofs.Decoders.SyslogRfc3164
   Proofs.Decoders.SyslogRfc5424 Proofs.Decoders.Csv Proofs.Decoders.JsonCut.
+From Coq Require Import Permutation.
 
 (* ---- totality: every byte string, every parameter value ---------------------------------------- *)
 Theorem c12_cri_total : forall data p, decode_cri data <> Panic p.
@@ -84,33 +85,87 @@ Theorem c12_csv_faithful : forall trim_space delimiter fields,
 Proof. exact decode_csv_faithful. Qed.
 Print Assumptions c12_csv_faithful.
 
-(* ---- json_max_fields_size: the byte surgery of cutFieldsBySize --------------------------------- *)
-(* never slices out of range when the limit is not negative (negative limits are rejected when the
-   decoder is built, fixes/C12-json-negative-limit.patch) and gjson's value lies inside the document *)
+(* ---- json_max_fields_size: cutFieldsBySize as repaired by ed38629 ------------------------------- *)
+(* gjson's Index and len(Str) are the only oracle values; the raw (escaped) text of the string is found
+   by the model itself (json_raw_len).  esc_valid = the escaped content of a valid JSON string: no bare
+   quote, no control character, every backslash starts a 2-byte escape or a 6-byte \uXXXX escape. *)
+
+(* never slices or indexes out of range, for ANY document (valid or not) and any len(Str), when the limit
+   is not negative (negative limits are rejected when the decoder is built,
+   fixes/C12-json-negative-limit.patch) and gjson's Index is the opening quote of a terminated string *)
 Theorem c12_json_cut_total : forall data index strlen limit p,
-  0 <= limit -> 0 <= index -> index + strlen + 1 <= len data ->
+  0 <= limit -> json_raw_len_at data index <> None ->
   json_cut data index strlen limit <> Panic p.
 Proof. exact json_cut_total. Qed.
 Print Assumptions c12_json_cut_total.
 
-(* a string value WITHOUT escape sequences loses exactly the bytes beyond the limit; every other
-   byte of the document, the closing quote included, is preserved *)
-Theorem c12_json_cut_partial : forall pre s post limit,
-  0 <= limit < len s ->
-  json_cut (pre ++ QUOTE :: s ++ QUOTE :: post) (len pre) (len s) limit =
-  Ok (pre ++ QUOTE :: firstn (Z.to_nat limit) s ++ QUOTE :: post).
+(* THE clause "per-field size limits cut only the named string fields and always leave valid JSON":
+   in a document  pre "raw" post  the string is replaced by its first k bytes and nothing else changes;
+   the kept text is again valid escaped content (no escape sequence is split); a string whose unescaped
+   length fits the limit is untouched; otherwise k <= limit and k is the LARGEST such number that leaves
+   valid content (so k > limit - 6, and k = limit when position limit does not fall inside an escape) *)
+Theorem c12_json_cut_spec : forall pre raw post strlen limit,
+  esc_valid raw = true -> 0 <= limit ->
+  exists k : nat,
+    json_cut (pre ++ QUOTE :: raw ++ QUOTE :: post) (len pre) strlen limit =
+      Ok (pre ++ QUOTE :: firstn k raw ++ QUOTE :: post) /\
+    (k <= length raw)%nat /\
+    esc_valid (firstn k raw) = true /\
+    (strlen <= limit -> k = length raw) /\
+    (limit < strlen ->
+       Z.of_nat k <= limit /\
+       (forall k' : nat, (k < k' <= length raw)%nat -> Z.of_nat k' <= limit -> esc_valid (firstn k' raw) = false) /\
+       (limit <= len raw -> limit - 6 < Z.of_nat k) /\
+       (limit <= len raw -> esc_valid (firstn (Z.to_nat limit) raw) = true -> Z.of_nat k = limit)).
 Proof. exact json_cut_spec. Qed.
-Print Assumptions c12_json_cut_partial.
+Print Assumptions c12_json_cut_spec.
 
-(* the clause "per-field size limits ... always leave valid JSON" fails for values WITH escape
-   sequences: cut positions come from the unescaped length (known finding, corpus/C12) *)
-Theorem c12_json_cut_refuted :
-  exists pre raw post strlen limit out,
-    strlen < len raw /\ 0 <= limit < strlen /\
-    json_cut (pre ++ QUOTE :: raw ++ QUOTE :: post) (len pre) strlen limit = Ok out /\
+(* how much of a string is kept (json_kept, used by the next theorem) has exactly those properties *)
+Theorem c12_json_kept_spec : forall raw strlen limit,
+  esc_valid raw = true -> 0 <= limit ->
+  let k := json_kept raw strlen limit in
+  (k <= length raw)%nat /\
+  esc_valid (firstn k raw) = true /\
+  (strlen <= limit -> k = length raw) /\
+  (limit < strlen ->
+     Z.of_nat k <= limit /\
+     (forall k' : nat, (k < k' <= length raw)%nat -> Z.of_nat k' <= limit -> esc_valid (firstn k' raw) = false) /\
+     (limit <= len raw -> limit - 6 < Z.of_nat k) /\
+     (limit <= len raw -> esc_valid (firstn (Z.to_nat limit) raw) = true -> Z.of_nat k = limit)).
+Proof. exact json_kept_spec. Qed.
+Print Assumptions c12_json_kept_spec.
+
+(* several paths (positions found on the original document, sorted by descending start, cut one after
+   the other): in a document  pre "raw1" post1 "raw2" post2 ...  with DISTINCT limited strings, gjson's
+   answers handed over in any order (Go map iteration), every string is shortened as above and nothing
+   else changes *)
+Theorem c12_json_cut_many_spec : forall pre fs found,
+  Forall jf_ok fs -> Permutation found (jf_found (len pre) fs) ->
+  json_cut_many (pre ++ jf_doc fs) found = Ok (pre ++ jf_cut fs).
+Proof. exact json_cut_many_spec. Qed.
+Print Assumptions c12_json_cut_many_spec.
+
+(* the hypothesis "distinct strings" of c12_json_cut_many_spec cannot be dropped: two configured paths
+   that resolve to the SAME string (a and \a, o.f and o.\f) yield two overlapping positions, both
+   computed on the original document, and the second cut eats the closing quote and what follows:
+   in the document { a : 0123456789 , z : tail } limits 3 and 5 on a leave  012  followed directly
+   by  : tail  - the closing quote, the comma and the key z are gone (reported; such a configuration is
+   not generated by the harness) *)
+Theorem c12_json_cut_many_aliased_refuted :
+  exists pre raw post strlen l1 l2 out,
+    esc_valid raw = true /\ 0 <= l1 /\ 0 <= l2 /\
+    json_cut_many (pre ++ QUOTE :: raw ++ QUOTE :: post) [(len pre, strlen, l1); (len pre, strlen, l2)] = Ok out /\
     ~ cut_keeps_framing pre raw post out.
-Proof. exact json_cut_escaped_refuted. Qed.
-Print Assumptions c12_json_cut_refuted.
+Proof. exact json_cut_many_aliased_refuted. Qed.
+Print Assumptions c12_json_cut_many_aliased_refuted.
+
+(* the runner's executable predicate (Violates when false) is the framing statement of the theorems:
+   the output is the document with nothing but the named strings replaced by prefixes of themselves *)
+Theorem c12_json_cut_framed : forall pre fs out, Forall jf_ok fs ->
+  (json_cut_framed (pre ++ jf_doc fs) (jf_found (len pre) fs) out = Some true <->
+   exists ks, length ks = length fs /\ out = pre ++ cut_doc (jf_pairs fs) ks).
+Proof. exact json_cut_framed_doc. Qed.
+Print Assumptions c12_json_cut_framed.
 
 (* ---- non-vacuity --------------------------------------------------------------------------------- *)
 From Coq Require Import Strings.String.
@@ -172,6 +227,18 @@ Example c12_faithful_nonvacuous :
   /\ csv_line 44%N [bs "a"; []; bs "c d"] = bs "a,,c d".
 Proof. repeat split; vm_compute; reflexivity. Qed.
 
+(* valid escaped content exists (two-byte escapes, \uXXXX, a surrogate pair, UTF-8 text), strings with
+   escapes are cut at an escape boundary, several at once too *)
 Example c12_json_cut_nonvacuous :
-  json_cut (bs "{""a"":""xyz"",""b"":1}") 5 3 1 = Ok (bs "{""a"":""x"",""b"":1}").
-Proof. vm_compute; reflexivity. Qed.
+  esc_valid (bs "x\u00e9\n\\y\""z\ud83d\ude00 é") = true
+  /\ esc_valid (bs "a\") = false /\ esc_valid (bs "a\u00e") = false /\ esc_valid (bs "a""b") = false
+  /\ json_cut (bs "{""a"":""xyz"",""b"":1}") 5 3 1 = Ok (bs "{""a"":""x"",""b"":1}")
+  /\ json_cut (bs "{""a"":""a\""""}") 5 2 1 = Ok (bs "{""a"":""a""}")
+  /\ json_cut (bs "{""a"":""x\u00e9\ny"",""b"":1}") 5 5 4 = Ok (bs "{""a"":""x"",""b"":1}")
+  /\ json_cut (bs "{""a"":""x\u00e9\ny"",""b"":1}") 5 5 7 = Ok (bs "{""a"":""x\u00e9\ny"",""b"":1}")
+  /\ json_cut (bs "{""a"":""x\u00e9\ny\tz"",""b"":1}") 5 8 7 = Ok (bs "{""a"":""x\u00e9"",""b"":1}")
+  /\ json_cut_many (bs "{""a"":""ab\ncd"",""b"":""x\\y""}") [(18, 3, 2); (5, 5, 3)] = Ok (bs "{""a"":""ab"",""b"":""x""}")
+  /\ Forall jf_ok [(bs "ab\ncd", bs ",""b"":", 5, 3); (bs "x\\y", bs "}", 3, 2)]
+  /\ jf_doc [(bs "ab\ncd", bs ",""b"":", 5, 3); (bs "x\\y", bs "}", 3, 2)] = bs """ab\ncd"",""b"":""x\\y""}"
+  /\ jf_found 5 [(bs "ab\ncd", bs ",""b"":", 5, 3); (bs "x\\y", bs "}", 3, 2)] = [(5, 5, 3); (18, 3, 2)].
+Proof. repeat split; try (vm_compute; reflexivity). repeat constructor; apply Z.leb_le; reflexivity. Qed.
